@@ -383,14 +383,18 @@ def St.remove (s : St) (ps : List Path) (allVersions force : Bool) : St × Out :
   let deletable := candidates.filter (fun a => force || (s.otherReferrers ts a).isEmpty)
   (deletable.foldl St.removeObj s, .ok)
 
-/-- `untrack`, first phase: re-materialise non-regular entries (symlinks) as copies; hard links are
-    regular files and stay as they are (K7) -/
+/-- `untrack`, first phase: re-materialise as copies the entries that are links into the cache:
+    symlinks, and files recorded as hard links that still are the cache object's inode
+    (`is_same_file`; a file the user put in its place is left alone) -/
 def St.rematerialise (s : St) (ts : List Ent) : St × Out :=
   forEach (fun (s : St) (e : Ent) =>
     match s.recs e with
     | some r =>
       match s.ws r.path, r.cur with
       | some (.sym _), some d => s.recheckFromCache r.path (addrOf r.path d) .copy
+      | some (.file _ _ _ (some a)), some d =>
+        if r.method = .hardlink ∧ a = addrOf r.path d then s.recheckFromCache r.path (addrOf r.path d) .copy
+        else (s, .ok)
       | _, _ => (s, .ok)
     | none => (s, .ok)) s ts
 
